@@ -68,6 +68,10 @@ CastNameShapes == <<
                                         Cast(Fld("Fa", 3, "int64"), "XtimeDuration"), Cast(Fld("Fb", 4, "int32"), "MyTime"),
                                         Rep(Cast(Fld("Fc", 5, "int64"), "BlockDuration"))>>, <<>>)>>,
        [BaseCfg EXCEPT !.durationcustom = "Duration"]),
+  \* floating point fields cast to types whose names merely END in the configured duration type: numbers all the same
+  With("t.cast.fracdur", <<Msg("Root", <<Cast(Fld("Flt", 1, "double"), "FracDuration"), Rep(Cast(Fld("Items", 2, "double"), "FracDuration")),
+                                         Cast(Fld("Fa", 3, "float"), "XDuration"), Cast(Fld("Dur", 4, "int64"), "Duration")>>, <<>>)>>,
+       [BaseCfg EXCEPT !.durationcustom = "Duration"]),
   With("t.cast.nocustom", <<Msg("Root", <<Cast(Fld("Num", 1, "int64"), "BlockDuration"), Cast(Fld("Dur", 2, "int64"), "Duration")>>, <<>>)>>, BaseCfg),
   \* casts to PREDECLARED Go types that gogo itself never emits for a proto scalar (int, uint16, int8, uint): built-in all the
   \* same, never qualified with the struct package
@@ -295,15 +299,26 @@ SharedPoison(kind) ==
         mk("1bad", cfg(<<>>), "Root"), mk("1bad", cfg(<<>>), "Poison"), mk("1bad", cfg(<<>>), "Other"),
         mk("2excl", cfg(<<"Mid.Bad">>), "Root"), mk("2excl", cfg(<<"Mid.Bad">>), "Poison"), mk("2excl", cfg(<<"Mid.Bad">>), "Other") >>
 
+\* a healthy selected type whose NAME begins with the name of the poisoned one, declared in front of it
+PrefixPoison(kind) ==
+  LET d == Desc(<<Leaf, Msg("FooBar", <<Fld("Str", 1, "string"), MsgF("Sub", 2, "Leaf")>>, <<>>), Msg("Foo", <<Fld("Num", 1, "int32"), BadField(kind)>>, <<>>)>>)
+      g == "c18.prefix." \o kind
+      cfg(types, excl) == [WholeCfg(kind, excl) EXCEPT !.types = types]
+      mk(tag, c, root) == [Shape(g \o "." \o tag \o "." \o root, d, c) EXCEPT !.root = root, !.run = g \o "." \o tag, !.group = g,
+                                  !.gchecks = <<GCheck("fn", "C18", "C18.others_intact")>>]
+  IN << mk("0base", cfg(<<"FooBar">>, <<>>), "FooBar"),
+        mk("1bad", cfg(<<"Foo", "FooBar">>, <<>>), "FooBar"), mk("1bad", cfg(<<"Foo", "FooBar">>, <<>>), "Foo"),
+        mk("2excl", cfg(<<"Foo", "FooBar">>, <<"Foo.Bad">>), "FooBar"), mk("2excl", cfg(<<"Foo", "FooBar">>, <<"Foo.Bad">>), "Foo") >>
+
 Positions == <<"top", "nested", "list", "map", "embed", "oneof", "deep", "deep5">>
 BadKinds == <<"time", "dur", "mapkey", "ptime", "pdur">>
 GenWholeShapes(long) ==
   IF long THEN FlattenSeq([i \in 1..(Len(Positions) * Len(BadKinds)) |->
                  WholeShapesFor(Positions[((i - 1) \div Len(BadKinds)) + 1], BadKinds[((i - 1) % Len(BadKinds)) + 1])])
-               \o SharedPoison("time") \o SharedPoison("dur") \o SharedPoison("mapkey")
+               \o SharedPoison("time") \o SharedPoison("dur") \o SharedPoison("mapkey") \o PrefixPoison("mapkey") \o PrefixPoison("time")
   ELSE WholeShapesFor("top", "time") \o WholeShapesFor("nested", "mapkey") \o WholeShapesFor("list", "dur")
        \o WholeShapesFor("map", "time") \o WholeShapesFor("embed", "mapkey") \o WholeShapesFor("oneof", "dur") \o WholeShapesFor("deep", "time")
-       \o SharedPoison("time") \o WholeShapesFor("nested", "ptime") \o WholeShapesFor("top", "pdur") \o WholeShapesFor("deep5", "time")
+       \o SharedPoison("time") \o WholeShapesFor("nested", "ptime") \o WholeShapesFor("top", "pdur") \o WholeShapesFor("deep5", "time") \o PrefixPoison("mapkey")
 
 ---------------------------------------------------------------------------
 \* C16: command line and YAML are equivalent channels; C14: determinism
@@ -341,7 +356,20 @@ ChanAlts(long) ==
                         EXCEPT !.boolstyle = <<"1", "t", "T", "TRUE", "True">>[i]]]
   \o [i \in 1..2 |-> [Alt("sort.both." \o <<"1", "T">>[i], "C16.cli_wins", ChanOne(9, "both"), 0, <<>>) EXCEPT !.boolstyle = <<"1", "T">>[i]]]
 
+\* a configuration that fits on the command line entirely: delivered without any `config` parameter, and next to a file
+\* that can be read and parsed but says nothing (zero bytes; comments only)
+CliRoot == Msg("Root", <<Fld("Str", 1, "string"), Fld("Extra", 2, "string"), MsgF("Sub", 3, "Leaf"), Fld("Zed", 4, "int32"), Fld("Alpha", 5, "bool"),
+                         Rep(Fld("Items", 6, "string"))>>, <<>>)
+CliCfg == [BaseCfg EXCEPT !.types = <<"Root", "Other">>, !.exclude = <<"Root.Extra">>, !.computed = <<"Root.Str", "Other.Num">>,
+                          !.required = <<"Leaf.Str">>, !.sensitive = <<"Root.Alpha", "Root.Sub.Str">>, !.separate = TRUE, !.sort = TRUE,
+                          !.timetype = FALSE, !.durationtype = FALSE]
+CliAlts == <<Alt("all.cli", "C16.channel_equiv", ChanAll("cli"), 0, <<>>),
+             [Alt("cli.no.config", "C16.channel_equiv", ChanAll("cli"), 0, <<>>) EXCEPT !.cfgfile = "none"],
+             [Alt("cli.empty.file", "C16.channel_equiv", ChanAll("cli"), 2, <<>>) EXCEPT !.cfgfile = "empty"],
+             [Alt("cli.comment.file", "C16.channel_equiv", ChanAll("cli"), 3, <<>>) EXCEPT !.cfgfile = "comments"]>>
+
 GenConfigShapes(long) == <<
+  [Shape("c16.cli", Desc(<<Leaf, CliRoot, ChanOther>>), [CliCfg EXCEPT !.alts = CliAlts]) EXCEPT !.root = "Root"],
   [Shape("c16.chan", Desc(<<Leaf, ChanRoot, ChanOther>>), [ChanCfg EXCEPT !.alts = ChanAlts(long)]) EXCEPT !.root = "Root"],
   [Shape("c16.chan.unsorted", Desc(<<Leaf, ChanRoot, ChanOther>>), [ChanCfg EXCEPT !.sort = FALSE, !.alts = ChanAlts(FALSE)]) EXCEPT !.root = "Other", !.run = "c16.chan.unsorted"],
   Shape("c16.notypes", Desc(<<Leaf, ChanRoot>>), [BaseCfg EXCEPT !.fault = "notypes"]),
@@ -364,7 +392,8 @@ DetCfg == [BaseCfg EXCEPT !.types = <<"Root", "Other", "Leaf">>, !.exclude = <<"
                                  [k |-> "Root.Sub.Num", v |-> <<"1">>]>>,
              !.injected = <<[k |-> "Root", v |-> <<Inj("id", "string", FALSE, TRUE, FALSE)>>], [k |-> "Root.Sub", v |-> <<Inj("rev", "int64", FALSE, TRUE, TRUE)>>],
                             [k |-> "Leaf", v |-> <<Inj("extra", "bool", FALSE, FALSE, TRUE)>>]>>,
-             !.customtypes = <<KV("Root.Alpha", "CustB"), KV("Leaf.Num", "CustN")>>, !.suffixes = <<KV("CustB", "SufB"), KV("CustN", "SufN")>>]
+             !.customtypes = <<KV("Root.Alpha", "CustB"), KV("Leaf.Num", "CustN")>>, \* (suffixes also holds entries for other spellings of the same type names, which no field uses)
+             !.suffixes = <<KV("CustB", "SufB"), KV("[]CustB", "SufX"), KV("CustN", "SufN"), KV("*CustN", "SufY"), KV("[]*CustB", "SufZ")>>]
 DetLeaf == Msg("Leaf", <<Fld("Str", 1, "string"), Fld("Num", 2, "int32")>>, <<>>)
 \* a message with four nullable embedded messages (all primitive) and two oneof groups: every per-message list
 \* the generator keeps (resets of holders / embedded parents, fields) has several entries
@@ -475,7 +504,25 @@ EmbedOrderShapes ==
        mk("2rot", <<EmbFields[2], EmbFields[3], EmbFields[1]>>, "variant"),
        mk("3last", <<EmbFields[3], EmbFields[1], EmbFields[2]>>, "variant")>>
 
+\* a message with a message field of its own reached through TWO fields of the root, the two references declared in either
+\* order, with options keyed by the path through ONE of them: what is built below a message depends on the path it is reached by
+PathMsgs(swap) ==
+  LET mid == Msg("Mid", <<MsgF("Leaf", 1, "Leaf"), Fld("Num", 2, "int32")>>, <<>>)
+      a == MsgF("Sub", 1, "Mid")
+      b == MsgF("Sub2", 2, "Mid")
+  IN <<Leaf, mid, Msg("Root", IF swap THEN <<b, a, Fld("Zed", 3, "string")>> ELSE <<a, b, Fld("Zed", 3, "string")>>, <<>>)>>
+PathCfg(sort) == [BaseCfg EXCEPT !.sort = sort, !.nameoverrides = <<KV("Root.Sub2.Leaf.Str", "ovr_p")>>, !.sensitive = <<"Root.Sub2.Leaf.Str">>,
+                                 !.computed = <<"Root.Sub.Num">>]
+PathOrderShapes ==
+  LET mk(id, swap, role) ==
+        [Shape("c15.p." \o id, Desc(PathMsgs(swap)), PathCfg(FALSE)) EXCEPT !.group = "c15.p",
+           !.gchecks = <<GCheck("schema", "C15", "C15.unsorted_schema")>>,
+           !.pair = [key |-> "c15.p", role |-> role, clause |-> "C15.unsorted_behaviour", prop |-> "C15", exclkey |-> ""]]
+  IN <<mk("0base", FALSE, "base"), mk("1swap", TRUE, "variant"),
+       [Shape("c15.p.sorted", Desc(PathMsgs(FALSE)), [PathCfg(TRUE) EXCEPT !.alts = <<Alt("perm.swap", "C15.sorted_bytes", <<>>, 0, PathMsgs(TRUE))>>]) EXCEPT !.run = "c15.p.sorted"]>>
+
 GenSortShapes(long) ==
+  PathOrderShapes \o
   EmbedOrderShapes \o
   <<[Shape("c15.sorted", Desc(SortMsgs), [SortCfg(TRUE) EXCEPT !.alts = SortAlts(long)]) EXCEPT !.root = "Root"]>> \o UnsortedShapes(long)
 
@@ -508,7 +555,9 @@ SepTriple(sp) ==
        \* a versioned import path: the last element contains a dot (.../tp.v1)
        mk("3sepdot", [sp.cfg EXCEPT !.separate = TRUE, !.dottedimport = TRUE], "variant"),
        \* the target package is NAMED like the struct package (another directory, the same package name)
-       mk("4sepname", [sp.cfg EXCEPT !.separate = TRUE, !.samename = TRUE], "variant")>>
+       mk("4sepname", [sp.cfg EXCEPT !.separate = TRUE, !.samename = TRUE], "variant"),
+       \* the import path of the struct package has capital letters, every letter of the message names among them
+       mk("5sepcaps", [sp.cfg EXCEPT !.separate = TRUE, !.capsimport = TRUE], "variant")>>
 
 GenSepShapes == FlattenSeq([i \in DOMAIN SepSel |-> SepTriple(SepSel[i])])
 
@@ -570,7 +619,14 @@ GenAddrMixed == <<
                             Msg("Root", <<MsgF("Sub", 1, "Leaf"), MsgF("Sub2", 2, "Leaf"), Fld("Num", 3, "int32")>>, <<>>)>>),
         [BaseCfg EXCEPT !.customtypes = <<KV("Root.Sub.Cust", "CustN"), KV("Root.Sub2.Cust", "CustN")>>,
                         !.validators = <<[k |-> "Leaf.Cust", v |-> <<"1">>]>>, !.planmodifiers = <<[k |-> "Root.Sub.Cust", v |-> <<"2">>]>>,
-                        !.computed = <<"Root.Sub2.Cust">>, !.sensitive = <<"Leaf.Cust">>, !.usfu = TRUE]) >>
+                        !.computed = <<"Root.Sub2.Cust">>, !.sensitive = <<"Leaf.Cust">>, !.usfu = TRUE]),
+  \* every time / duration field excluded (by both key forms) and NO time_type / duration_type configured: an excluded
+  \* field is not looked at
+  Shape("c11.mix.6", Desc(<<Msg("Leaf", <<Fld("Str", 1, "string"), StdDur("Dur", 2)>>, <<>>),
+                            Msg("Root", <<MsgF("Sub", 1, "Leaf"), MsgF("Sub2", 2, "Leaf"), StdTime("When", 3), Fld("Num", 4, "int32"),
+                                          Rep(StdTime("Whens", 5))>>, <<>>)>>),
+        [BaseCfg EXCEPT !.exclude = <<"Leaf.Dur", "Root.When", "Root.Whens">>, !.timetype = FALSE, !.durationtype = FALSE,
+                        !.computed = <<"Root.Sub.Str">>]) >>
 
 \* the same mixed-key configurations judged for C10 (flags, validators, plan modifiers and the default plan modifier per attribute)
 MixedKeyFlagShapes == [i \in DOMAIN GenAddrMixed |-> [GenAddrMixed[i] EXCEPT !.id = "c10.mix." \o ToString(i), !.run = "c10.mix." \o ToString(i)]]
@@ -604,6 +660,8 @@ BoundaryShapes ==
         With("c19.cast.string", <<Msg("Root", <<Cast(Fld("Fa", 1, "string"), "CastStr"), Rep(Cast(Fld("Fb", 2, "string"), "CastStr"))>>, <<>>)>>, BaseCfg),
         With("c19.cast.uint64", <<Msg("Root", <<Cast(Fld("Fa", 1, "uint64"), "CastU"), Rep(Cast(Fld("Fb", 2, "uint64"), "CastU"))>>, <<>>)>>, BaseCfg),
         With("c19.cast.float", <<Msg("Root", <<Cast(Fld("Fa", 1, "float"), "CastF")>>, <<>>)>>, BaseCfg),
+        With("c19.cast.fracdur", <<Msg("Root", <<Cast(Fld("Fa", 1, "double"), "FracDuration"), Rep(Cast(Fld("Fb", 2, "double"), "FracDuration"))>>, <<>>)>>,
+             [BaseCfg EXCEPT !.durationcustom = "Duration"]),
         With("c19.time", <<Msg("Root", <<NonNull(StdTime("Fa", 1)), StdTime("Fb", 2), Rep(StdTime("Fc", 3))>>, <<>>)>>, BaseCfg),
         With("c19.duration", <<Msg("Root", <<NonNull(StdDur("Fa", 1)), StdDur("Fb", 2), Cast(Fld("Fc", 3, "int64"), "time.Duration"),
                                            Rep(Cast(Fld("Fd", 4, "int64"), "time.Duration")), Cast(Fld("Fe", 5, "int64"), "Duration")>>, <<>>)>>,
@@ -627,6 +685,10 @@ CustomShapes == <<
   With("u.two", <<Msg("Root", <<NonNull(Custom(Fld("Cust", 1, "string"), "CustT")), Fld("Extra", 2, "bytes")>>, <<>>)>>,
        CustCfg(<<KV("Root.Extra", "CustX")>>, <<KV("CustT", "SufT")>>)),
   \* custom types on MAP fields (of scalars and of messages): delegated like any other custom field
+  \* a custom-type field that ALSO matches a schema_types entry: still delegated to the hooks
+  With("u.cfg.ovr", <<Msg("Root", <<Fld("Str", 1, "string"), Fld("Cust", 2, "string"), NonNull(Custom(Fld("Zed", 3, "string"), "CustT"))>>, <<>>)>>,
+       [CustCfg(<<KV("Root.Cust", "CustC")>>, <<KV("CustT", "SufT")>>) EXCEPT !.schematypes = <<KV("Root.Cust", "string"), KV("Root.Zed", "string")>>,
+                                                                          !.computed = <<"Root.Cust">>, !.required = <<"Root.Zed">>]),
   With("u.cfg.map", <<Msg("Root", <<MapOf(Fld("Tags", 1, "string")), MapOf(Fld("Fb", 2, "bool")), Fld("Str", 3, "string"), MapOf(Fld("Fa", 4, "int32"))>>, <<>>)>>,
        CustCfg(<<KV("Root.Tags", "CustM"), KV("Root.Fb", "CustD")>>, <<KV("CustD", "SufD")>>)),
   \* two custom types which share their last name component: the suffixes entry of the bare one is not the other's
